@@ -21,7 +21,7 @@ func TestWorker(t *testing.T) {
 func TestMain(m *testing.M) {
 	flag.Parse()
 	c := m.Run()
-	if c != 0 && exitCode == 0 {
+	if c != 0 && exitCode == 0 && !core.RaceMode() {
 		exitCode = 3
 	}
 	os.Exit(exitCode)
